@@ -956,3 +956,70 @@ func queryFilterRule(o *Ob) {
 	}
 	o.Check(nScan >= 2, "scans", "query must have the id scan and the version-index scan", fnFirst(q))
 }
+
+// silencerCacheCellRule: the silencer's per-alert cache pairs a list of silence ids with the store version that list
+// was computed at.  The pair must stay a pair: an entry is immutable once built (its fields are only written in the
+// function that allocates it), set files exactly the entry it is given under the given fingerprint, get hands back
+// what is filed there (or an empty entry at version 0), delete removes it.
+func silencerCacheCellRule(o *Ob) {
+	e := o.E
+	for _, fn := range e.FuncsOfPkg("am/silence") {
+		for _, f := range []string{"version", "silenceIDs"} {
+			for _, st := range e.StoresToField(fn, "am/silence.cacheEntry", f) {
+				_, fresh := st.Addr.(*ssa.FieldAddr).X.(*ssa.Alloc)
+				o.Site(st, fnName(fn)+" initialises cacheEntry."+f)
+				o.Check(fresh, "entry-immutable|"+f+"|"+fnName(fn), fnName(fn)+" changes "+f+" of an existing cache entry: ids and version no longer belong together (a newer silence would never be looked at, or an older list would count as current)", st)
+			}
+		}
+	}
+	nc := o.Fn("am/silence.newCacheEntry")
+	for f, want := range map[string]string{"version": "p0", "silenceIDs": "p1"} {
+		sts := e.StoresToField(nc, "am/silence.cacheEntry", f)
+		o.Check(len(sts) == 1 && e.X(nc, sts[0].Val) == want, "entry-new|"+f, "newCacheEntry must build the entry from its arguments ("+f+")", fnFirst(nc))
+	}
+	set := o.Fn("(*am/silence.cache).set")
+	n := 0
+	var mu ssa.Instruction
+	for _, in := range AllInstrs(set) {
+		if m, ok := in.(*ssa.MapUpdate); ok {
+			n++
+			mu = m
+			o.Site(m, "cache.set")
+			o.Check(e.X(set, m.Map) == "recv.entries" && e.X(set, m.Key) == "p0" && e.X(set, m.Value) == "p1", "set-value", "cache.set must file exactly the given entry under the given fingerprint, files "+e.X(set, m.Value)+" under "+e.X(set, m.Key), m)
+		}
+	}
+	if o.Check(n == 1, "set-site", "cache.set must write the map in one place", fnFirst(set)) {
+		o.Check(len((&Walk{Fn: set, Barrier: IsInstr(mu)}).FromEntry().Returns()) == 0, "set-skipped", "cache.set can return without filing the entry (a stale entry would stay current)", mu)
+	}
+	for _, w := range e.WritesThroughParam(set, 2, 1) {
+		o.Fail("set-mutates", "cache.set changes the entry it is given ("+w.What+")", w.Instr)
+	}
+	get := o.Fn("(*am/silence.cache).get")
+	found := L("recv.entries[p0]#1", true)
+	o.Site(fnFirst(get), "cache.get")
+	o.Table(get, "get", []Row{
+		{Name: "filed", Assume: A(found), Ret: [][]string{Vals("recv.entries[p0]#0")}},
+		{Name: "not filed", Assume: A(found.Neg()), Ret: [][]string{Vals("&complit:am/silence.cacheEntry", "am/silence.newCacheEntry(0, nil)", "am/silence.newCacheEntry(0, [])")}},
+	})
+	for _, f := range []string{"version", "silenceIDs"} {
+		o.Check(len(e.StoresToField(get, "am/silence.cacheEntry", f)) == 0, "get-empty|"+f, "the entry for an unknown alert must be empty at version 0", fnFirst(get))
+	}
+	del := o.Fn("(*am/silence.cache).delete")
+	d := 0
+	for _, in := range AllInstrs(del) {
+		if c, ok := in.(*ssa.Call); ok {
+			if b, isB := c.Call.Value.(*ssa.Builtin); isB && b.Name() == "delete" {
+				d++
+				o.Check(e.X(del, c.Call.Args[0]) == "recv.entries" && e.X(del, c.Call.Args[1]) == "p0", "delete-key", "cache.delete must remove the given fingerprint", c)
+			}
+		}
+	}
+	o.Check(d == 1, "delete-site", "cache.delete no longer removes the entry", fnFirst(del))
+}
+
+func init() {
+	reg("C02", "C02.16", "T3,T6", "the silencer cache keeps ids and version together: cache entries are immutable once built; set files exactly the given entry, get returns what is filed or an empty entry at version 0, delete removes it", func(o *Ob) {
+		silencerCacheCellRule(o)
+		o.MinSites(4)
+	})
+}
